@@ -27,6 +27,8 @@ pub struct TestRunner {
     ram: Arc<RwLock<BasicRam>>,
     cpu: MOS6502,
     num_cycles: usize,
+    /// How many subroutine calls are open (a 'jsr' was executed, its 'rts' not yet)
+    call_depth: usize,
     formatted_traces: Vec<FormattedTrace>,
 }
 
@@ -206,6 +208,7 @@ impl TestRunner {
             ram,
             cpu,
             num_cycles: 0,
+            call_depth: 0,
             formatted_traces: vec![],
         })
     }
@@ -311,10 +314,16 @@ impl TestRunner {
             return Ok(ExecuteResult::TestSuccess(self.num_cycles));
         }
 
+        let opcode = self.ram.read().unwrap().ram[self.cpu.get_program_counter() as usize];
         self.cpu.cycle(self.ram.write().unwrap().deref_mut());
         self.num_cycles += 1 + self.cpu.get_remaining_cycles() as usize;
         self.cpu
             .execute_instruction(self.ram.write().unwrap().deref_mut());
+        match opcode {
+            0x20 => self.call_depth += 1,
+            0x60 => self.call_depth = self.call_depth.saturating_sub(1),
+            _ => {}
+        }
 
         Ok(ExecuteResult::Running)
     }
@@ -343,7 +352,7 @@ impl TestRunner {
     }
 
     pub fn step_out(&mut self) -> MosResult<ExecuteResult> {
-        if self.cpu.get_stack_pointer() > 253 {
+        if self.call_depth == 0 {
             // Nothing to step out to
             return Ok(ExecuteResult::Running);
         }
